@@ -177,11 +177,13 @@ ASSUMPTIONS = [
 ]
 
 
-def units_range_init():
+def units_range_init(shapes=None, props=("C01",)):
+    """one unit per item shape; other properties that rely on Range's limits / items (C19: column capacity from lower_limit / upper_limit)
+    include a single shape: the overlap scan and the limit loop are verified in full by every run, only the token loop is per shape"""
     out = []
-    for shape in SHAPES:
+    for shape in (shapes or SHAPES):
         def make(ctx, shape=shape):
             return {"contract": init_contract(shape), "callees": CALLEES(), "spec_functions": SPECF, "label": "shape lo=%d ell=%d hi=%d" % shape, "assumptions": ASSUMPTIONS}
         out.append(ProofUnit("ranges.Range.__init__/%d%d%d" % shape, "Range.__init__ token loop, current item of shape (lower kind %d, ellipsis %d, upper kind %d)" % shape,
-                             ["C01"], make, RangeTextOracle(), xcheck=False, weight=5, timeout=1200))
+                             list(props), make, RangeTextOracle(), xcheck=False, weight=5, timeout=1200))
     return out
